@@ -679,6 +679,14 @@ func runCase(c tcase) (res result) {
 			cs.cond.Broadcast()
 			cs.mu.Unlock()
 			return opRes{}
+		case "settle":
+			// timing only (no meaning in the model): let the goroutines run for a while
+			ms := o.Auth
+			if ms <= 0 || ms > 2000 {
+				ms = 100
+			}
+			time.Sleep(time.Duration(ms) * time.Millisecond)
+			return opRes{E: "settle"}
 		case "sync":
 			var msg string
 			r := run(fmt.Sprintf("op %d sync barrier", i), func() opRes {
